@@ -136,6 +136,7 @@ pub enum Rec {
     AcceptPanic(String),
     ServerPanic(String),
     SignalSent(i32),
+    Injected { listener: usize, kind: ErrKind },
     /// the server task handled a Stop command (it woke the accept loop with Stop)
     StopProcessed,
     /// waker queue content at the start of an accept turn
@@ -922,6 +923,7 @@ impl Sys {
                         ErrKind::Interrupted => (io::ErrorKind::Interrupted, Some(libc::EINTR)),
                     };
                     verif::inject_accept_error(fd, k, os);
+                    w.rec(Rec::Injected { listener: l, kind });
                 }
             }
             Ev::SetReady { slot, svc, mode } => {
